@@ -4,7 +4,7 @@ import itertools
 ID = "C18"
 HARNESSES = [dict(name="upgrade", pkg="./pkg/upgrade/", test="TestVerifC18", timeout=900,
                   files=[("pkg/upgrade/zz_verif_c18_test.go", "harness/C18/zz_verif_c18_test.go")])]
-VARIANTS = ["repaired"]   # /repo HEAD has every repair; any old behaviour is an unexplained mismatch = VIOLATION
+VARIANTS = ["repaired", "leaves_residue"]   # leaves_residue = /repo at ca3a3f9 (recorded finding); older behaviours match nothing = VIOLATION
 MODEL_NEEDS_IMPL = False
 RULE = ("history cases: an installed tree of 5 artifact paths (absent / regular incl. empty, modes incl. setuid, setgid, "
         "sticky, 0 / symlink to a regular file outside the artifact dirs, to another artifact path, chains through "
@@ -35,9 +35,9 @@ ASSUMPTIONS = ["rename(2) within a directory is atomic and the journal/snapshot 
 
 NP = 5
 NVER = 16   # version ids; the harness maps them to confusable strings (prefix / suffix / case / blank / +build / leading v)
-APPLY_FAIL = [1, 2, 3, 4, 5, 6, 7, 8]
+APPLY_FAIL = [1, 2, 3, 4, 5, 6, 7, 8, 36]   # 36 = saveCurrentManifest (after Snapshot) fails
 RB_FAIL = [11, 12, 13, 14, 15, 16, 17, 18]
-CRASH_A = [25, 36, 36, 26, 27, 28, 29, 30, 31, 32, 35, 35, 33, 34, 1, 2, 3, 4, 5, 7, 8, 51, 52, 53]
+CRASH_A = [25, 26, 27, 28, 29, 30, 31, 32, 35, 35, 33, 34, 1, 2, 3, 4, 5, 7, 8, 51, 52, 53]
 CRASH_R = [41, 42, 43, 44, 45, 11, 12, 13, 14, 15, 17, 18]
 MODES = ["0755", "0644", "755", "600", "4755", "e", "0750", "0"]
 FMODES = ["755", "644", "600", "4755", "2755", "1777", "6755", "750", "0", "444"]
@@ -246,7 +246,7 @@ def systematic():
     # interrupted upgrade, then ForceRetry: the baseline stays the tree before the FIRST attempt
     a2f = [(0, 20, "0755", "o"), (1, 21, "0644", "n")]
     firsts = [dict(ob=[(1, "o")], fail=[12]), dict(ob=[(1, "o")], crash=51), dict(ob=[(0, "s")], fail=[11]), dict(crash=30),
-              dict(fail=[8, 12]), dict(ha="failed", fail=[18]), dict(crash=35), dict(crash=25), dict(crash=36), dict(crash=26),
+              dict(fail=[8, 12]), dict(ha="failed", fail=[18]), dict(crash=35), dict(crash=25), dict(fail=[36]), dict(crash=26),
               dict(fail=[2])]
     seconds = [(a2f, dict(ha="failed")), (a2f, dict()), (a2f, dict(ob=[(0, "o")])), (a2f, dict(crash=25)), (a2f, dict(crash=29)),
                (a2f[:1], dict(fail=[8])), ([(0, 30, "0755", "v"), (2, 32, "0644", "n")], dict(ha="failed")),
@@ -259,9 +259,18 @@ def systematic():
         out.append("h 1 %s ; %s ; %s ; %s ; %s ; clear ; %s" % (fs0, mk_apply(2, a2f, **f1), mk_apply(2, a2f, force=1, crash=25),
                                                                 mk_apply(2, a2f, force=1, ob=[(1, "o")], fail=[12]),
                                                                 mk_apply(3, a2f, force=1, ha="failed"), mk_rollback()))
+    # ForceRetry with every strict-subset / superset / disjoint tarball, no faults: success must not leave a path at the
+    # interrupted upgrade's version
+    a3f = [(0, 20, "0755", "o"), (1, 21, "0644", "n"), (3, 23, "0600", "v")]
+    subsets = [[a3f[0]], [a3f[1]], [a3f[2]], a3f[:2], a3f[1:], [a3f[0], a3f[2]], a3f, a3f + [(4, 24, "0644", "n")], [(4, 24, "0644", "n")]]
+    for f1 in (dict(ob=[(1, "o")], fail=[12]), dict(fail=[8, 12]), dict(ha="failed", fail=[18]), dict(crash=35), dict(crash=30),
+               dict(ob=[(3, "s")], crash=51)):
+        for sub in subsets:
+            sub2 = [(p, c + 10, m, rc) for (p, c, m, rc) in sub]
+            out.append("h 1 %s ; %s ; clear ; %s ; %s" % (fs0, mk_apply(2, a3f, **f1), mk_apply(5, sub2, force=1), mk_rollback()))
     # never-upgraded box (no current-manifest.yaml: version discovered from the binary = id 63)
     out.append("h 63 %s ; %s ; %s ; %s" % (fs0, mk_apply(2, a2f, prev="63o"), mk_rollback(), mk_apply(2, a2f, prev="63o", ha="failed")))
-    out.append("h 63 %s ; %s ; %s ; %s" % (fs0, mk_apply(2, a2f, crash=36), mk_rollback(), mk_apply(2, a2f, force=1)))
+    out.append("h 63 %s ; %s ; %s ; %s" % (fs0, mk_apply(2, a2f, fail=[36]), mk_rollback(), mk_apply(2, a2f, force=1)))
     out.append("h 63 %s ; %s ; %s" % (fs0, mk_apply(2, a2f, prev="1o"), mk_apply(2, a2f, crash=35)))
     # installed artifacts of every kind x what happens after the swap loop: what the path RESOLVES to must come back
     kinds = {"reg": "0:r10.4755", "link-out": "0:s100,100:r50.644", "link-art": "0:s3,3:r13.600",
@@ -288,6 +297,9 @@ def systematic():
                 out.append("h %d %s ; %s" % (c, fs0, mk_apply((c + 5) % NVER if (c + 5) % NVER != pv else (c + 6) % NVER, a1, prev="%do" % pv)))
         out.append("h %d %s ; %s ; %s" % (c, fs0, mk_apply((c + 1) % NVER, a1, exp=str((c + 3) % NVER)),
                                           mk_apply((c + 1) % NVER, a1, exp=str(c))))
+        for e in range(NVER):
+            if e != c:
+                out.append("h %d %s ; %s" % (c, fs0, mk_apply((c + 1) % NVER, a1, exp=str(e))))
     # chains: upgrade, roll back, then a tarball that names the rolled-back-from version as predecessor
     a3 = [(0, 30, "0755", "o"), (3, 33, "0644", "n")]
     out.append("h 1 %s ; %s ; %s ; %s" % (fs0, mk_apply(2, a2), mk_rollback(), mk_apply(3, a3, prev="2o")))
@@ -413,6 +425,23 @@ def classify(case, impl, model):
     return "G", "outputs differ in length: impl=%r model=%r" % (impl, model)
 
 
+def signature(case, impl, models):
+    """recorded finding: a ForceRetry over an interrupted upgrade with a tarball that does not install every path the kept
+    snapshot covers is admitted (the repaired model refuses it)"""
+    if case.startswith("name"):
+        return None
+    si, sr, ops = segs(impl), segs(models["repaired"]), ops_of(case)
+    for k, (a, b) in enumerate(zip(si, sr)):
+        if a == b:
+            continue
+        if 0 < k < len(ops) and ops[k].startswith("apply") and " force=1 " in ops[k] \
+                and fields(sr[k - 1]).get("j", "none").split(":")[0] not in ("none", "completed", "rolled_back", "started") \
+                and fields(b)["res"] == "err" and b.split(" ", 1)[1] == sr[k - 1].split(" ", 1)[1]:   # repaired refuses, nothing changes
+            return "forceretry-subset-leaves-residue"
+        return None
+    return None
+
+
 def shrink(case):
     if case.startswith("name"):
         h = case.split()[1]
@@ -473,6 +502,8 @@ def distribution(cases, impl):
             f = fields(s)
             inc(d["results"], f["res"])
             inc(d["monitor"], f.get("mon", "?"))
+            inc(d.setdefault("monitor_ver", {}), f.get("ver", "?"))
+            inc(d.setdefault("monitor_rm", {}), f.get("rm", "?"))
             if t[0] in ("apply", "rollback"):
                 kv = dict(x.split("=", 1) for x in t[1:])
                 if t[0] == "apply":
